@@ -35,7 +35,13 @@ type Spec struct {
 	Inits     []int  `json:"inits"` // registration order of the scope initializers (indices)
 	Use       int    `json:"use"`   // bit mask of what is resolved in every scope
 	HostClose string `json:"host_close,omitempty"`
-	Seed      int64  `json:"seed"`
+	// CloseErr: which disposable instances return an error from Close() (the scope's Close
+	// then legitimately returns a DisposalError, which the workload ignores):
+	// "" none | kth (every disposable of every scope of every 3rd cycle) | kind-SB (every SB
+	// instance, hosts and root scope included) | child-only (only instances of non-root scopes
+	// of the per-cycle tree: the parent's Close reports its child's error)
+	CloseErr string `json:"close_err,omitempty"`
+	Seed     int64  `json:"seed"`
 	// fault part
 	Where  string `json:"where,omitempty"` // provider | child | grandchild | build
 	Pos    int    `json:"pos,omitempty"`   // index into Inits of the initializer that fails
@@ -57,11 +63,11 @@ func (s *Spec) describe() string {
 		target := map[string]string{"build": "the Build itself (root scope)", "provider": "provider.CreateScope(" + s.Parent + ")", "child": "P.CreateScope(" + s.Parent + ") on an open scope P", "grandchild": "C.CreateScope(" + s.Parent + ") on an open child C of an open scope P"}[s.Where]
 		return fmt.Sprintf("%s; 2 fault-free create/use/Close cycles; then %d x %s during which initializer #%d of %d (%s) %s; parents used again and closed; 2 fault-free cycles; checks; provider.Close; checks", reg, s.Repeat, target, s.Pos+1, len(s.Inits), initNames[s.Inits[s.Pos]], what)
 	}
-	return fmt.Sprintf("%s; host=%s (closed: %s); %d then %d more cycles of: create scope tree %v (roots with ctx=%s, children with ctx=%v), resolve mask %#x in every scope, close mode %s; checks after N, after 2N, after provider.Close", reg, s.Host, map[string]string{"": "by provider.Close", "explicit": "explicitly"}[s.HostClose], s.N, s.N, s.Shape, s.Parent, s.ChildCtx, s.Use, s.Close)
+	return fmt.Sprintf("%s; host=%s (closed: %s); %d then %d more cycles of: create scope tree %v (roots with ctx=%s, children with ctx=%v), resolve mask %#x in every scope, close mode %s; Close() errors injected: %s; checks after N, after 2N, after provider.Close", reg, s.Host, map[string]string{"": "by provider.Close", "explicit": "explicitly"}[s.HostClose], s.N, s.N, s.Shape, s.Parent, s.ChildCtx, s.Use, s.Close, map[string]string{"": "none", "kth": "every disposable instance of every scope of every 3rd cycle", "kind-SB": "every SB instance (hosts and root scope included)", "child-only": "every disposable instance of the non-root scopes of each tree"}[s.CloseErr])
 }
 
 func (s *Spec) canon() string {
-	return fmt.Sprintf("%s|%d|%s|%s|%v|%v|%s|%v|%d|%s|%s|%d|%s|%d", s.Kind, s.N, s.Host, s.Parent, s.Shape, s.ChildCtx, s.Close, s.Inits, s.Use, s.HostClose, s.Where, s.Pos, s.FKind, s.Repeat)
+	return fmt.Sprintf("%s|%d|%s|%s|%v|%v|%s|%v|%d|%s|%s|%d|%s|%d|%s", s.Kind, s.N, s.Host, s.Parent, s.Shape, s.ChildCtx, s.Close, s.Inits, s.Use, s.HostClose, s.Where, s.Pos, s.FKind, s.Repeat, s.CloseErr)
 }
 
 // use mask bits
@@ -106,6 +112,26 @@ func (c *customCtx) Value(any) any { return nil }
 
 type trackerKey struct{}
 
+const allDisposable = uint16(1<<tSA | 1<<tSB | 1<<tSD | 1<<tSG | 1<<tTA)
+
+// closeErrMask says which instance types created for the given scope will fail to Close.
+// node: index in the per-cycle tree (-1: host scope / root scope).
+func (e *env) closeErrMask(node int) uint16 {
+	switch e.spec.CloseErr {
+	case "kth":
+		if node >= 0 && e.cycleNo%3 == 0 {
+			return allDisposable
+		}
+	case "kind-SB":
+		return 1 << tSB
+	case "child-only":
+		if node >= 0 && e.spec.Shape[node] >= 0 {
+			return allDisposable
+		}
+	}
+	return 0
+}
+
 type creator interface {
 	CreateScope(context.Context) (godi.Scope, error)
 }
@@ -125,6 +151,7 @@ type env struct {
 	custom     *customCtx
 	held       []godi.Scope
 
+	cycleNo              int
 	baseG                int
 	open                 int // scopes legitimately open: one watcher goroutine each
 	baseGodi, baseProp   int // godi-framed / propagation goroutines left over by earlier cases of this process
